@@ -5,23 +5,39 @@ import outtree as T
 
 ID = "C08"
 GEN = []
-THEOREMS = []
+THEOREMS = ["C08_writer_layout", "C08_framing_layout", "C08_writer_same_sheet", "C08_value_newlines"]
 COQ_HEADER = ("From Coq Require Import List NArith ZArith.\nFrom RV Require Import Run.C08.\n"
               "Import ListNotations.\nLocal Open Scope N_scope.")
 RUN_EXPR = "Run.C08.run"
-RULE = ""
+RULE = ("spec-corpus inputs (sample of 1300 in quick, all in thorough), generated programs of the statement subset, and "
+        "generated CSS item trees fed as plain CSS, each compiled in both styles; the predicate (both succeed or both fail "
+        "with the same message; equal text after the CssTok normalisation of white space, comments, leading zeros, empty "
+        "blocks and the CssColor canonical colour notation) is computed in Coq on the two rsass outputs; distinct = distinct "
+        "input text; non-trivial = the expanded output is not empty")
 EXHAUSTIVE = {"quick": False, "thorough": False}
+TRUSTED = ["Spec/CssTok.v normalize and Spec/CssColor.v color_canon: what `only white space, loud comments, leading zeros and "
+           "equivalent colour notations may differ` means (colour names from the CSS Color specification)"]
+ASSUMPTIONS = ["the theorems are about the writer model of Model/Out.v (tied to rsass by the C07 correspondence); value / "
+               "number / colour formatting in the two styles is compared on rsass's outputs only"]
 SHARD = 150
+
+WIT = ["/* #{$undefined} */ a{x:y}", ".div{\n  $foo: 1, null, 2, null, 3;\n  content: \"#{$foo}\";\n}",
+       "a{t: 1 + (2 + (3/4 + (4/5 6/7)))}", "a{b: #ff0000 red rgb(1, 2, 3) 0.5em transparent}", "a{/* only */}"]
 
 
 def gen_cases(ctx, tier):
     import corpus
     rng = ctx.rng
-    cases = [{"kind": "scss", "src": "/* #{$undefined} */ a{x:y}"}]
+    cases = [{"kind": "scss", "src": s} for s in WIT]
     items = [s for _, s in corpus.spec_inputs() if len(s.encode()) <= 3000]
     if tier == "quick":
-        items = rng.sample(items, min(1500, len(items)))
+        items = rng.sample(items, min(1300, len(items)))
     cases += [{"kind": "scss", "src": s} for s in items]
+    for i in range(300 if tier == "quick" else 3000):
+        cases.append({"kind": "scss", "src": D.gen_scss(rng)})
+    for i in range(300 if tier == "quick" else 3000):
+        tree = T.gen_tree(rng, maxtop=rng.choice([1, 2, 3, 5]), depth=3)
+        cases.append({"kind": "css", "src": T.tree_css(tree)})
     return cases
 
 
@@ -43,9 +59,26 @@ def coq_term(c, io):
     return f"(mkCase {cbytes(c['src'])} {out_coq(io[0])} {out_coq(io[1])})"
 
 
+K1 = "known_C08_comment_interpolation"
+K2 = "known_C08_style_dependent_evaluation"
+
+
 def judge(c, io, r):
-    p1, p2, p3, k1 = r
-    return {"corr": None, "clauses": [("same-outcome", p1 == 1, "known_C08_comment_interpolation" if k1 else None),
-                                      ("same-message", p2 == 1, None), ("same-stylesheet", p3 == 1, None)],
-            "nontrivial": io[0][0] == "ok" and bool(io[0][1][0]), "tags": [io[0][0] + "/" + io[1][0]],
+    p1, p2, p3, k1, k2 = r
+    return {"corr": None,
+            "clauses": [("same-outcome", p1 == 1, K1 if k1 else None),
+                        ("same-message", p2 == 1, None),
+                        ("same-stylesheet", p3 == 1, K2 if k2 else None)],
+            "nontrivial": io[0][0] == "ok" and bool(io[0][1][0]), "tags": [c["kind"], io[0][0] + "/" + io[1][0]],
             "show": c["src"][:200], "detail": c["src"], "key": c["src"]}
+
+
+LEVEL_TEXT = ("proof: for ALL comment-free css item trees whose leaf renderings agree up to layout, the expanded and the "
+              "compressed writer (model of css/*.rs write methods, CssBuf and CssData::into_buffer, tied to rsass by C07's "
+              "byte-exact correspondence) emit the same bytes in the same order up to space / newline / `;`; the full predicate "
+              "of the statement (same outcome, same message, same normalised stylesheet) is computed in Coq on rsass's two "
+              "outputs for corpus and generated inputs")
+LEVEL_NOTE = ("partial: style-dependence of value formatting and of evaluation is explored, not proved (two known findings: F11 "
+              "comment interpolation errors vanish when compressed; new: text produced during evaluation is formatted with the "
+              "output style)")
+TECHNIQUE = "Coq proof (lock-step induction over the item tree for the two writers) + predicate evaluation in Coq on implementation outputs"
